@@ -444,7 +444,7 @@ theorem capacity_ok_iff_partial (exempt : Bool) (ins : List Nat) (outs : List Ou
     | nil => intro i; simp [checkOutputs]
     | cons o rest ih =>
       intro i
-      unfold checkOutputs
+      rw [checkOutputs]
       simp only [List.mem_cons, forall_eq_or_imp, OutputOk]
       cases hc : capBytes o.dataLen with
       | none =>
@@ -494,11 +494,11 @@ theorem capacity_ok_iff_partial (exempt : Bool) (ins : List Nat) (outs : List Ou
       · simp only [h1, h2, if_true, if_false, false_and, and_false]
         constructor
         · intro h; cases h
-        · intro h; exact h.1.elim
+        · intro h; exact h.elim
     · simp only [h1, if_false, false_and]
       constructor
       · intro h; cases h
-      · intro h; exact h.1.elim
+      · intro h; exact h.elim
 
 example : occupied ⟨0, 20, none, 0⟩ 0 = some ((8 + 0 + 20 + 33) * 100000000) ∧
     occupied ⟨0, 20, some 32, 700000000⟩ 700000000 = some ((8 + 7 + 20 + 33 + 32 + 33) * 100000000) := by decide
